@@ -318,6 +318,9 @@ func (w *World) Node(fl string, st *State) *Node {
 				addSets()
 				addKeys()
 			}
+			if st.AnSetsAgain {
+				addSets()
+			}
 			h = an.VerifDecryptionKeysHandler()
 		} else {
 			storage := gnosisaccessnode.NewStorage()
